@@ -116,6 +116,10 @@ def mutants(b, d, mt, tree, members):
                     ft = b.rng.choice(foreign_pool)
                     mut("foreign_member", lambda c: c[i]["items"][0].append({"k": "f", "tag": ft, "val": b.val(ft)}))
                 it0 = f["items"][0]
+                if len(it0) >= 2:
+                    # the first member displaced (behind the second / to the end), the rest still in dictionary order
+                    mut("first_member_second", lambda c: c[i]["items"][0].__setitem__(slice(0, 2), [c[i]["items"][0][1], c[i]["items"][0][0]]))
+                    mut("first_member_last", lambda c: c[i]["items"][0].append(c[i]["items"][0].pop(0)))
                 if len(it0) >= 3:
                     mut("swap_members", lambda c: c[i]["items"][0].__setitem__(slice(1, 3), [c[i]["items"][0][2], c[i]["items"][0][1]]))
     t2 = copy.deepcopy(tree); t2.append({"k": "f", "tag": "99999", "val": "x"}); out.append(("unknown_tag", t2))
@@ -235,8 +239,8 @@ def run(ctx):
             mid = insts[1][1]
             ml = mutants(b, d, mt, mid, members)
             if q and len(ml) > 120:
-                keep = [x for x in ml if x[0].startswith("drop_required")]
-                rest = [x for x in ml if not x[0].startswith("drop_required")]
+                keep = [x for x in ml if x[0].startswith(("drop_required", "first_member"))]
+                rest = [x for x in ml if not x[0].startswith(("drop_required", "first_member"))]
                 ml = keep[:80] + rng.sample(rest, min(len(rest), max(40, 120 - len(keep[:80]))))
             for name, tree in ml:
                 recs.append(dict(base, id="%s.%s.%s" % (dname, mt, name), tree=tree)); n += 1
